@@ -44,9 +44,31 @@ def flat(log):
     return b"".join(bytes(x) for x in log)
 
 
+GHOST = {}
+
+
 def ghost(name, value):
-    """Named ghost value (no run-time effect); symbolic mode records it for reports."""
+    """Named ghost value: remembered for spec functions / loop contracts (ghost_get); no effect on the real code."""
+    GHOST[name] = value
     return value
+
+
+def ghost_get(name):
+    return GHOST[name]
+
+
+def make_file(data, mode="r"):
+    """A file object of the file model (native: LogFile)."""
+    return LogFile(data if not isinstance(data, str) else data.encode("utf-8")) if "b" in mode else TextLogFile(data)
+
+
+EVENTS = []
+
+
+def logged(level, text):
+    """True when a logger call of that level with exactly that message happened since the harness started
+    (symbolic: the event log of the path; native: a capturing logging handler)."""
+    return any(l == level and t == text for l, t in EVENTS)
 
 
 def fresh_int(name):
@@ -91,3 +113,35 @@ class LogFile:
     def __exit__(self, *a):
         self.closed = True
         return False
+
+
+class TextLogFile(LogFile):
+    def __init__(self, data=""):
+        super().__init__(b"")
+        self.text = data if isinstance(data, str) else bytes(data).decode("utf-8")
+
+    def read(self, n=-1):
+        r = self.text[self.pos:] if n is None or n < 0 else self.text[self.pos:self.pos + n]
+        self.pos += len(r)
+        return r
+
+
+def _install_log_capture():
+    import logging
+
+    class H(logging.Handler):
+        def emit(self, record):
+            try:
+                EVENTS.append((record.levelname.lower(), record.getMessage()))
+            except Exception:  # noqa: BLE001
+                pass
+
+    h = H()
+    for name in ("a816", "x816"):
+        lg = logging.getLogger(name)
+        lg.addHandler(h)
+        lg.setLevel(logging.DEBUG)
+        lg.propagate = False
+
+
+_install_log_capture()
